@@ -1,7 +1,6 @@
 (* Facts about the symbolic term algebra of Model/Sym.v: decidable equality is
    exactly Leibniz equality, and the perfect-cryptography characterisations of
    verify / open / DH used by the protocol theorems. *)
-From Coq Require Import String Ascii.
 From Coq Require Import List NArith Arith Bool Lia.
 From AHK Require Import Lib.Res Lib.ByteStr Model.Tlv Model.Sym.
 Import ListNotations.
